@@ -415,6 +415,10 @@ TINY_DIFF = (b"diff --git a/src/x.rs b/src/x.rs\nindex 1111111..2222222 100644\n
 BUILTIN_FEATURES = ["line-numbers", "side-by-side", "navigate", "diff-so-fancy", "diff-highlight", "hyperlinks", "raw", "color-only"]
 CHAIN_DEPTHS_OK = [3, 40, 200]          # depths the unchanged delta is required to pass (see known_findings for the rest)
 CHAIN_DEPTHS_DEEP = [2000]
+# The recursion of gather_features_recursively is as deep as the chain is long: the unchanged debug build overflows its 8 MiB
+# main-thread stack on an *acyclic* chain of about 11 800 sections (passes at 11 796, aborts at 11 854; known finding
+# C03-feature-chain-stack). The depths above are required to pass; this one is generated to keep the finding on record.
+CHAIN_DEPTHS_BEYOND = [20000]
 
 
 def fg_text(main, sections):
@@ -478,6 +482,14 @@ def fg_chain(depth, close):
     return secs
 
 
+def fg_wide(w, cyclic):
+    """a hub section whose `features` value has w words (and the same w words at the top level); cyclic: the last one names the hub"""
+    kids = [f"w{i}" for i in range(w)]
+    if cyclic:
+        return True, "hub", [("hub", kids, None), (f"w{w - 1}", ["hub"], {"file-style": "bold yellow"})]
+    return False, "hub " + " ".join(kids), [("hub", kids, {"file-style": "bold yellow"}), ("w1", ["w2", "w0"], None)]
+
+
 def fg_random(rng):
     k = rng.randint(2, 7)
     names = [rng.choice(["a", "b", "c", "d", "e", "f", "g", "h"]) + str(i) for i in range(k)]
@@ -513,11 +525,11 @@ def fg_cases(ctx):
     for d in CHAIN_DEPTHS_OK:
         graphs.append((f"chain-depth-{d}", False, "n0", fg_chain(d, False)))
         graphs.append((f"chain-depth-{d}-closed", True, "n0", fg_chain(d, True)))
-    for d in CHAIN_DEPTHS_DEEP:
+    for d in CHAIN_DEPTHS_DEEP + CHAIN_DEPTHS_BEYOND:
         graphs.append((f"chain-depth-{d}", False, "n0", fg_chain(d, False)))
     for w in (300, 3000):
-        graphs.append((f"wide-list-{w}", False, " ".join(f"w{i}" for i in range(w)), [("w0", [f"w{i}" for i in range(w)], {"file-style": "bold yellow"})]))
-        graphs.append((f"wide-list-{w}-cyclic", True, "w0", [("w0", [f"w{i}" for i in range(w)], None), (f"w{w - 1}", ["w0"], None)]))
+        graphs.append((f"wide-list-{w}",) + fg_wide(w, False))
+        graphs.append((f"wide-list-{w}-cyclic",) + fg_wide(w, True))
     for _ in range(ctx.n(24, 400)):
         graphs.append(fg_random(rng))
     cases = []
@@ -633,10 +645,8 @@ def fg_regenerate(cls):
         return "n0", fg_chain(int(m.group(1)), bool(m.group(2)))
     m = _re.fullmatch(r"wide-list-(\d+)(-cyclic)?", cls)
     if m:
-        w = int(m.group(1))
-        if m.group(2):
-            return "w0", [("w0", [f"w{i}" for i in range(w)], None), (f"w{w - 1}", ["w0"], None)]
-        return " ".join(f"w{i}" for i in range(w)), [("w0", [f"w{i}" for i in range(w)], {"file-style": "bold yellow"})]
+        _, root, secs = fg_wide(int(m.group(1)), bool(m.group(2)))
+        return root, secs
     raise SystemExit("replay: cannot regenerate " + cls)
 
 
